@@ -42,6 +42,9 @@ use vrt::{
 
 use crate::{bgzf_level::check_info, cut::CutReader};
 
+#[path = "foreign.rs"]
+pub mod foreign;
+
 // ------------------------------------------------------------------------------------------ traces
 
 /// The observable result of driving one reader over one document with one script.
@@ -175,6 +178,11 @@ pub struct RCase {
     pub lim: Limits,
     /// The async reader sits on the async BGZF reader and takes a worker count.
     pub workers_apply: bool,
+    /// Foreign-layout twins of this document (same scripts, own bytes / index / expected traces); the
+    /// layout is a free choice of `reader_body`.
+    pub twins: Vec<RCase>,
+    /// `Some(label)` for a twin.
+    pub layout: Option<String>,
 }
 
 impl RCase {
@@ -194,7 +202,16 @@ impl RCase {
             expect: idx.iter().map(|&i| self.expect[i].clone()).collect(),
             lim: self.lim,
             workers_apply: self.workers_apply,
+            twins: self.twins.iter().filter_map(|t| t.restricted(keep)).collect(),
+            layout: self.layout.clone(),
         })
+    }
+
+    fn sname(&self, script: &Script) -> String {
+        match &self.layout {
+            None => script_name(self.format, script),
+            Some(l) => format!("{} layout={l}", script_name(self.format, script)),
+        }
     }
 }
 
@@ -381,6 +398,8 @@ pub fn make_rcase(docs: &[Doc], doc: &Doc) -> Option<RCase> {
         expect: Vec::new(),
         lim,
         workers_apply: matches!(f, Format::Bam | Format::Bcf | Format::SamGz | Format::VcfGz),
+        twins: Vec::new(),
+        layout: None,
     };
     let expect: Vec<Tr> = case.scripts.iter().map(|s| sync_drive(&case, s)).collect();
     for (s, t) in case.scripts.iter().zip(&expect) {
@@ -396,7 +415,77 @@ pub fn make_rcase(docs: &[Doc], doc: &Doc) -> Option<RCase> {
         }
     }
     case.expect = expect;
+    if foreign::carries_twins(doc) {
+        let (mut used, mut rejected) = (Vec::new(), Vec::new());
+        for (label, bytes) in foreign::twins_of(doc) {
+            match make_twin(&case, doc, &label, bytes) {
+                Ok(t) => {
+                    used.push(label);
+                    case.twins.push(t);
+                }
+                Err(why) => rejected.push(format!("{label} ({why})")),
+            }
+        }
+        eprintln!("[C16] foreign layouts {}: used: {}", doc.name, if used.is_empty() { "none".into() } else { used.join(" ") });
+        if !rejected.is_empty() {
+            eprintln!("[C16] foreign layouts {}: rejected by the sync reader (recorded, not judged): {}", doc.name, rejected.join("; "));
+        }
+    }
     Some(case)
+}
+
+/// A foreign-layout twin of `parent`: same scripts, the sync traces on the twin's own bytes as the
+/// specification. `Err(why)` when the sync reader (or indexer) does not accept the layout.
+fn make_twin(parent: &RCase, _doc: &Doc, label: &str, bytes: Vec<u8>) -> Result<RCase, String> {
+    let f = parent.format;
+    let name = format!("{}+{label}", parent.name);
+    let vmap = if parent.vmap.is_some() { Some(VMap::new(&bytes).ok_or("not well-formed BGZF for the independent walker")?) } else { None };
+    let bytes = Arc::new(bytes);
+    let index = match parent.index.as_deref() {
+        None => None,
+        Some(_) => {
+            // virtual positions / container offsets differ: the index is rebuilt by the sync indexer
+            match vmc::catch(|| try_build_index(f, &bytes)) {
+                Ok(Ok(i)) => Some(Arc::new(i)),
+                Ok(Err(e)) => return Err(format!("sync indexer: {e}")),
+                Err((msg, _)) => return Err(format!("sync indexer panics: {msg}")),
+            }
+        }
+    };
+    let mut lim = Limits::for_input(bytes.len());
+    lim.debug = false;
+    let mut case = RCase { format: f, name, bytes, vmap, index, scripts: parent.scripts.clone(), expect: Vec::new(), lim, workers_apply: parent.workers_apply, twins: Vec::new(), layout: Some(label.to_string()) };
+    let expect: Vec<Tr> = match vmc::catch(|| case.scripts.iter().map(|s| sync_drive(&case, s)).collect::<Vec<Tr>>()) {
+        Ok(e) => e,
+        Err((msg, file)) => return Err(format!("sync reader panics: {msg} in {file}")),
+    };
+    for (i, (s, t)) in case.scripts.iter().zip(&expect).enumerate() {
+        let reached_eof = t.lines.last().map(|l| l.starts_with("end: EOF")).unwrap_or(false);
+        if matches!(s, Script::Seq(_)) && !reached_eof && !(f == Format::Crai && *s == Script::Seq(0)) {
+            return Err(format!("{}: {}", script_name(f, s), t.lines.last().cloned().unwrap_or_default()));
+        }
+        // the same content: a sequential trace of the twin has as many lines as the parent's
+        if matches!(s, Script::Seq(_)) && t.lines.len() != parent.expect[i].lines.len() {
+            return Err(format!("{}: sync reads {} lines, {} from the original", script_name(f, s), t.lines.len(), parent.expect[i].lines.len()));
+        }
+    }
+    case.expect = expect;
+    Ok(case)
+}
+
+fn try_build_index(format: Format, bytes: &[u8]) -> io::Result<IndexData> {
+    use std::io::Write;
+    let mut t = tempfile::NamedTempFile::new()?;
+    t.write_all(bytes)?;
+    t.flush()?;
+    Ok(match format {
+        Format::Bam => IndexData::Linear(bam::fs::index(t.path())?),
+        Format::Bcf => IndexData::Binned(bcf::fs::index(t.path())?),
+        Format::SamGz => IndexData::Binned(sam::fs::index(t.path())?),
+        Format::VcfGz => IndexData::Linear(vcf::fs::index(t.path())?),
+        Format::Cram => IndexData::Crai(cram::fs::index(t.path())?),
+        f => return Err(io::Error::other(format!("no indexer for {f}"))),
+    })
 }
 
 // ------------------------------------------------------------------------------------------ paired drivers
@@ -1295,7 +1384,7 @@ fn strip_vpos(l: &str) -> String {
 pub fn compare(ch: &Chooser, case: &RCase, script: &Script, got: &Tr, how: &dyn Fn() -> String) -> Outcome {
     let want = &case.expect[case.scripts.iter().position(|s| s == script).unwrap()];
     let fmt = case.format.name();
-    let sname = script_name(case.format, script);
+    let sname = case.sname(script);
     let n = want.lines.len().min(got.lines.len());
     for i in 0..n {
         let (e, a) = (&want.lines[i], &got.lines[i]);
@@ -1318,6 +1407,12 @@ pub fn compare(ch: &Chooser, case: &RCase, script: &Script, got: &Tr, how: &dyn 
         } else {
             "value-differs".to_string()
         };
+        if std::env::var_os("C16_DUMP").is_some() {
+            for (k, (x, y)) in want.lines.iter().zip(&got.lines).enumerate() {
+                eprintln!("DUMP {k} sync : {}\nDUMP {k} async: {}", &x[..x.len().min(150)], &y[..y.len().min(150)]);
+            }
+            eprintln!("DUMP raw sync {:?}\nDUMP raw async {:?}", want.raw.iter().map(|v| (v >> 16, v & 0xffff)).collect::<Vec<_>>(), got.raw.iter().map(|v| (v >> 16, v & 0xffff)).collect::<Vec<_>>());
+        }
         return Err(Violation::new(
             format!("fmt-reader format={fmt} script={sname} line={kind} symptom={symptom}"),
             how(),
@@ -1411,6 +1506,13 @@ fn horizon(case: &RCase) -> usize {
 /// E1 body: document x script x worker count x poll mode, then every poll decision / schedule.
 pub fn reader_body(ch: &Chooser, cases: &[&RCase], workers: &[usize], modes: &[PollMode]) -> Outcome {
     let case = *ch.pick_free("doc", cases);
+    let case = match ch.free("layout", 1 + case.twins.len()) {
+        0 => case,
+        k => &case.twins[k - 1],
+    };
+    if case.layout.is_some() {
+        ch.tag("foreign-layout");
+    }
     let script = &case.scripts[ch.free("script", case.scripts.len())];
     let w = if case.workers_apply { *ch.pick_free("workers", workers) } else { 1 };
     let mode = ch.pick_free("mode", modes).clone();
@@ -1479,7 +1581,7 @@ type Caught = Result<(Option<Tr>, vrt::RunInfo), (String, String)>;
 
 fn finish_reader(ch: &Chooser, case: &RCase, script: &Script, caught: Caught, delivered: &[usize], how: &dyn Fn(Option<&vrt::RunInfo>) -> String) -> Outcome {
     let fmt = case.format.name();
-    let sname = script_name(case.format, script);
+    let sname = case.sname(script);
     let (tr, info) = match caught {
         Ok(x) => x,
         Err((msg, file)) => {
